@@ -5,6 +5,7 @@ import numpy as np
 
 from ..core import guarded
 from ..gens import spectra as gs
+from ..monitors import history as hist
 
 PROPERTY = "C07"
 LEVEL = "exploration"
@@ -231,7 +232,23 @@ def case_spectrum(ctx, rng):
                    allow_zero=False) if rng.uniform() < 0.5 else \
         gs.case_2d(rng, nf=int(rng.integers(2, 20)), nd=int(rng.choice([8, 24])),
                    depth_kind=str(rng.choice(["mixed", "finite", "inf"])), allow_zero=False)
+    if rng.uniform() < 0.3:
+        # infragravity / tsunami band: deep water (missing or infinite depth) must stay deep water at 5e-4 Hz too
+        f = np.asarray(c["freq"], float)
+        c["freq"] = f * (10 ** rng.uniform(-3.3, -2.3) / f[0])
+        c["fkind"] = str(c["fkind"]) + "+verylow"
+        ctx.count("C07.spectra_with_frequencies_below_0.005Hz")
     judge_spectrum(ctx, c)
+    c["_hseed"] = int(rng.integers(0, 2 ** 62))
+    hist.judge_history(ctx, "C07", c, np.random.default_rng(c["_hseed"]), *history_io(c), nsteps=6)
+
+
+def history_io(c):
+    reads = hist.reads_from(c, plain=("wavenumber", "wavelength", "group_velocity", "peak_wavenumber"),
+                            calls=(("wave_speed()", lambda s: s.wave_speed()), ("peak_wave_speed()", lambda s: s.peak_wave_speed())))
+    mods = hist.spectrum_mods(c, with_depth=True)
+    # the depth modification is the interesting one here: every other modification leaves k unchanged
+    return reads, [mods[-1], mods[-1], mods[0], mods[1]]
 
 
 def judge_spectrum(ctx, c):
@@ -323,7 +340,9 @@ def run_shard(ctx, shard):
 def replay(ctx, case):
     from ocean_science_utilities.wavetheory.lineardispersion import inverse_intrinsic_dispersion_relation as kfun
     kind = case.get("kind")
-    if kind == "spectrum":
+    if "history" in case:
+        hist.run_history(ctx, "C07", case["gen"], case["history"], *history_io(case["gen"]))
+    elif kind == "spectrum":
         judge_spectrum(ctx, case["gen"])
     elif kind == "cg":
         judge_cg(ctx, case["k"], case["d"], case)
